@@ -30,16 +30,23 @@ def hx(b):
 class SessionJob:
     """One execution: Open + commands."""
     def __init__(self, id, script, stack=(), flags=(), sigver="BASE", z=False, succ=b"", cmds=("steps",), cmp=CMP_C01,
-                 hist=False, weight=0, pretend=(), extra=None):
+                 hist=False, weight=0, pretend=(), extra=None, txctx=None, auto=False):
         self.id = id; self.script = bytes(script); self.stack = [bytes(x) for x in stack]; self.flags = list(flags)
         self.sigver = sigver; self.z = z; self.succ = bytes(succ); self.cmds = list(cmds); self.cmp = list(cmp)
         self.hist = hist; self.weight = weight; self.pretend = [(bytes(a), bytes(b)) for a, b in pretend]
         self.extra = extra or {}
+        self.txctx = txctx; self.auto = auto
 
     def open_event(self):
         ev = {"e": "Open", "id": self.id, "script": self.script.hex(), "stack": [x.hex() for x in self.stack],
               "flags": self.flags, "sigver": self.sigver, "z": self.z, "succ": self.succ.hex(), "hist": self.hist,
               "cmp": self.cmp, "weight": self.weight, "pretend": [[a.hex(), b.hex()] for a, b in self.pretend]}
+        t = self.txctx
+        if t:
+            ev.update({"tx": t["tx"], "nin": t.get("nin", 0), "amount": int(t.get("amount", 0)).to_bytes(8, "little").hex(),
+                       "spent": [[int(a).to_bytes(8, "little").hex(), hx(s)] for a, s in t.get("spent", [])],
+                       "annex": hx(t["annex"]) if t.get("annex") else "", "leafhash": hx(t["leafhash"]) if t.get("leafhash") else ""})
+            if t.get("txin"): ev["txin"] = t["txin"]
         ev.update(self.extra)
         return ev
 
@@ -48,10 +55,21 @@ class SessionJob:
         st = ",".join((x.hex() if x else "e") for x in self.stack) or "-"
         o = "OPEN script=%s stack=%s flags=%d sigver=%d z=%d succ=%s" % (self.script.hex() or "-", st, flagbits(self.flags),
                                                                           SIGVER[self.sigver], 1 if self.z else 0, self.succ.hex() or "-")
-        if self.weight:
+        if self.weight or self.sigver == "TAPSCRIPT":
             o += " weight=%d" % self.weight
         if self.pretend:
             o += " pretend=" + ",".join("0x%s:0x%s" % (a.hex(), b.hex()) for a, b in self.pretend)
+        t = self.txctx
+        if t:
+            o += " tx=%s caplog=1" % t["tx"]
+            if t.get("amounts"): o += " amounts=" + t["amounts"]
+            if t.get("txin"): o += " txin=" + t["txin"]
+            if t.get("select") is not None: o += " select=%d" % t["select"]
+            if t.get("leafhash"): o += " leafhash=" + hx(t["leafhash"])
+            if "annex" in t: o += " annex=" + (hx(t["annex"]) if t["annex"] else "-")
+            if t.get("preamble"): o += " preamble=1"
+        if self.auto:
+            o += " auto=1"
         out.append(o)
         for c in self.cmds:
             out.append("CMD " + c)
